@@ -195,12 +195,17 @@ def run_check(tier, seed):
     P = Pipeline(prog_d, prog_s)
     # interface fact the composition relies on (t_asof <= t_query): decided here on the same tree, from the poller's MIR, with its
     # own native replay; if it fails the composition's time line would be wrong, so C01 reports it rather than assuming it
-    from .daemon_poller import poller_order_half
+    from .daemon_poller import poller_order_half, client_order_half
     sub = Check('C01', tier, seed)
     try:
         poller_order_half(sub, prog_d, seed)
     except EngineError as e:
         ck.inconclusive.append('interface fact (as-of before query) not decidable: %s' % e)
+    # second interface fact (A3: the client's interval is centred on a reading of the fine realtime clock taken before its monotonic reading)
+    try:
+        client_order_half(sub, seed)
+    except EngineError as e:
+        ck.inconclusive.append('interface fact (client reads CLOCK_REALTIME first) not decidable: %s' % e)
     for key, desc, path in sub.violations:
         ck.violations.append(('interface:' + key, 'interface fact of the composition violated - ' + desc, path))
     ck.inconclusive += ['interface fact: ' + i for i in sub.inconclusive]
